@@ -109,6 +109,49 @@ pub struct Http2Settings {
     pub max_header_list_size: Option<u32>,
 }
 
+const FLAG_END_HEADERS: u8 = 0x4;
+const FLAG_PADDED: u8 = 0x8;
+const FLAG_PRIORITY: u8 = 0x20;
+
+/// Header block fragment of a HEADERS frame: the payload without the optional pad-length and
+/// priority fields in front of it and without the padding behind it (RFC 7540, section 6.2).
+fn headers_fragment(frame: &Http2Frame) -> Option<&[u8]> {
+    let mut payload: &[u8] = &frame.payload;
+    let mut pad_length = 0usize;
+    if frame.flags & FLAG_PADDED != 0 {
+        pad_length = usize::from(*payload.first()?);
+        payload = payload.get(1..)?;
+    }
+    if frame.flags & FLAG_PRIORITY != 0 {
+        payload = payload.get(5..)?;
+    }
+    let end = payload.len().checked_sub(pad_length)?;
+    payload.get(..end)
+}
+
+/// Complete header block opened by the first HEADERS frame of `stream_id`: its fragment followed
+/// by the fragments of the CONTINUATION frames up to the one carrying END_HEADERS (section 6.10).
+/// `None` while the block is not complete (or is malformed), so that it is never decoded in pieces.
+pub(crate) fn first_header_block(frames: &[Http2Frame], stream_id: u32) -> Option<Vec<u8>> {
+    let start = frames
+        .iter()
+        .position(|f| f.frame_type == Http2FrameType::Headers && f.stream_id == stream_id)?;
+    let first = frames.get(start)?;
+    let mut block = headers_fragment(first)?.to_vec();
+    let mut complete = first.flags & FLAG_END_HEADERS != 0;
+    for frame in frames.iter().skip(start.saturating_add(1)) {
+        if complete {
+            break;
+        }
+        if frame.frame_type != Http2FrameType::Continuation || frame.stream_id != stream_id {
+            return None;
+        }
+        block.extend_from_slice(&frame.payload);
+        complete = frame.flags & FLAG_END_HEADERS != 0;
+    }
+    complete.then_some(block)
+}
+
 #[derive(Debug, Clone)]
 pub struct Http2Stream {
     pub stream_id: u32,
@@ -248,7 +291,9 @@ impl<'a> Http2Parser<'a> {
         let Some(stream_id) = self.find_primary_stream(&frames) else {
             return Ok(None);
         };
-        let stream = self.build_stream(stream_id, &frames)?;
+        let Some(stream) = self.build_stream(stream_id, &frames)? else {
+            return Ok(None);
+        };
 
         let method = stream
             .method
@@ -330,7 +375,9 @@ impl<'a> Http2Parser<'a> {
         let Some(stream_id) = self.find_primary_stream(&frames) else {
             return Ok(None);
         };
-        let stream = self.build_stream(stream_id, &frames)?;
+        let Some(stream) = self.build_stream(stream_id, &frames)? else {
+            return Ok(None);
+        };
 
         let status = stream
             .status
@@ -544,7 +591,7 @@ impl<'a> Http2Parser<'a> {
         &self,
         stream_id: u32,
         frames: &[Http2Frame],
-    ) -> Result<Http2Stream, Http2ParseError> {
+    ) -> Result<Option<Http2Stream>, Http2ParseError> {
         let mut headers = Vec::new();
         let mut method = None;
         let mut path = None;
@@ -552,33 +599,32 @@ impl<'a> Http2Parser<'a> {
         let mut scheme = None;
         let mut status = None;
 
-        let stream_frames: Vec<&Http2Frame> =
-            frames.iter().filter(|f| f.stream_id == stream_id).collect();
-
-        for frame in stream_frames {
-            match frame.frame_type {
-                Http2FrameType::Headers | Http2FrameType::Continuation => {
-                    let frame_headers = self.parse_headers_payload(&frame.payload)?;
-                    for header in frame_headers {
-                        match header.name.as_str() {
-                            ":method" => method = Some(header.value.clone().unwrap_or_default()),
-                            ":path" => path = Some(header.value.clone().unwrap_or_default()),
-                            ":authority" => {
-                                authority = Some(header.value.clone().unwrap_or_default())
-                            }
-                            ":scheme" => scheme = Some(header.value.clone().unwrap_or_default()),
-                            ":status" => {
-                                status = header.value.as_ref().and_then(|v| v.parse().ok())
-                            }
-                            _ => headers.push(header),
-                        }
-                    }
-                }
-                _ => {}
+        // The header block is decoded once, as a whole: padding and priority fields removed and
+        // CONTINUATION fragments joined (RFC 7540, sections 6.2 and 6.10)
+        // (an incomplete block means the rest has not arrived yet: nothing to report so far)
+        let Some(block) = first_header_block(frames, stream_id) else {
+            return Ok(None);
+        };
+        for header in self.parse_headers_payload(&block)? {
+            match header.name.as_str() {
+                ":method" => method = Some(header.value.clone().unwrap_or_default()),
+                ":path" => path = Some(header.value.clone().unwrap_or_default()),
+                ":authority" => authority = Some(header.value.clone().unwrap_or_default()),
+                ":scheme" => scheme = Some(header.value.clone().unwrap_or_default()),
+                ":status" => status = header.value.as_ref().and_then(|v| v.parse().ok()),
+                _ => headers.push(header),
             }
         }
 
-        Ok(Http2Stream { stream_id, headers, method, path, authority, scheme, status })
+        Ok(Some(Http2Stream {
+            stream_id,
+            headers,
+            method,
+            path,
+            authority,
+            scheme,
+            status,
+        }))
     }
 
     fn parse_headers_payload(&self, payload: &[u8]) -> Result<Vec<HttpHeader>, Http2ParseError> {
